@@ -1,10 +1,16 @@
 //go:build verif
 
 // Contracts for package storage, read by /verif/govc (comment-only: no declarations, no effect on any build).
-// The default Storage: what is returned for a key is exactly what was stored under that key.
+// The default Storage as a data structure: what a getter returns for a key is exactly what is stored under that key, a
+// store puts the message under the key its own signed header names and nowhere else, the first proposal stored for a
+// view wins. `len(m)` of a map is the cardinality of its key set; a map range that does not write the map produces
+// exactly that many keys (engine model of the Go specification).
 
 package storage
 
+//@ pred StoreOK(storage *InMemoryStorage) = storage.preprepareStorage != nil && storage.prepareStorage != nil && storage.commitStorage != nil && storage.viewChangeStorage != nil
+
+// ---- COMMIT ----
 //@ func (*InMemoryStorage).getCommit
 //@   props C10 C03
 //@   requires storage.commitStorage != nil
@@ -16,5 +22,100 @@ package storage
 //@   requires storage.commitStorage != nil
 //@   ensures [only-senders-stored-for-this-height-view-and-hash] forall i int :: 0 <= i && i < len(result) ==> has(storage.commitStorage, blockHeight) && has(storage.commitStorage[blockHeight], view)
 //@     | && has(storage.commitStorage[blockHeight][view][content(blockHash)], content(result[i]))
+//@   ensures [as-many-as-stored] has(storage.commitStorage, blockHeight) && has(storage.commitStorage[blockHeight], view) ==> len(result) == len(storage.commitStorage[blockHeight][view][content(blockHash)])
 //@   loop range senders
 //@     invariant [keys] i == $i && len(keys) == len(senders) && (forall j int :: 0 <= j && j < i ==> has(senders, content(keys[j])))
+
+//@ func (*InMemoryStorage).GetCommitMessages
+//@   props C10 C03
+//@   requires storage.commitStorage != nil
+//@   ensures [only-messages-stored-for-this-height-view-and-hash] result1 ==> has(storage.commitStorage, blockHeight) && has(storage.commitStorage[blockHeight], view)
+//@     | && (forall i int :: 0 <= i && i < len(result0) ==> (exists k Str :: has(storage.commitStorage[blockHeight][view][content(blockHash)], k) && storage.commitStorage[blockHeight][view][content(blockHash)][k] == result0[i]))
+//@   ensures [as-many-as-stored] result1 ==> len(result0) == len(storage.commitStorage[blockHeight][view][content(blockHash)])
+//@   loop range senders
+//@     invariant [values] len(values) == $i && (forall j int :: 0 <= j && j < len(values) ==> (exists k Str :: has(senders, k) && senders[k] == values[j]))
+
+// ---- PREPARE ----
+//@ func (*InMemoryStorage).getPrepare
+//@   props C10 C09
+//@   requires storage.prepareStorage != nil
+//@   ensures [absent] !result1 ==> !(has(storage.prepareStorage, blockHeight) && has(storage.prepareStorage[blockHeight], view))
+//@   ensures [present] result1 ==> has(storage.prepareStorage, blockHeight) && has(storage.prepareStorage[blockHeight], view) && result0 == storage.prepareStorage[blockHeight][view][content(blockHash)]
+
+//@ func (*InMemoryStorage).GetPrepareSendersIds
+//@   props C10 C09
+//@   requires storage.prepareStorage != nil
+//@   ensures [only-senders-stored-for-this-height-view-and-hash] forall i int :: 0 <= i && i < len(result) ==> has(storage.prepareStorage, blockHeight) && has(storage.prepareStorage[blockHeight], view)
+//@     | && has(storage.prepareStorage[blockHeight][view][content(blockHash)], content(result[i]))
+//@   ensures [as-many-as-stored] has(storage.prepareStorage, blockHeight) && has(storage.prepareStorage[blockHeight], view) ==> len(result) == len(storage.prepareStorage[blockHeight][view][content(blockHash)])
+//@   loop range senders
+//@     invariant [keys] i == $i && len(keys) == len(senders) && (forall j int :: 0 <= j && j < i ==> has(senders, content(keys[j])))
+
+//@ func (*InMemoryStorage).GetPrepareMessages
+//@   props C10 C09
+//@   requires storage.prepareStorage != nil
+//@   ensures [only-messages-stored-for-this-height-view-and-hash] result1 ==> has(storage.prepareStorage, blockHeight) && has(storage.prepareStorage[blockHeight], view)
+//@     | && (forall i int :: 0 <= i && i < len(result0) ==> (exists k Str :: has(storage.prepareStorage[blockHeight][view][content(blockHash)], k) && storage.prepareStorage[blockHeight][view][content(blockHash)][k] == result0[i]))
+//@   ensures [as-many-as-stored] result1 ==> len(result0) == len(storage.prepareStorage[blockHeight][view][content(blockHash)])
+//@   loop range senders
+//@     invariant [values] len(values) == $i && (forall j int :: 0 <= j && j < len(values) ==> (exists k Str :: has(senders, k) && senders[k] == values[j]))
+
+// ---- PREPREPARE: first stored wins ----
+//@ func (*InMemoryStorage).StorePreprepare
+//@   props C10
+//@   requires storage.preprepareStorage != nil && ppm != nil && ppm.content != nil
+//@   objinv [inner-maps-exist] forall h int :: has(storage.preprepareStorage, h) ==> storage.preprepareStorage[h] != nil
+//@   modifies M:Int:Int, M:Int:Int#1
+//@   ensures [first-wins] old(has(storage.preprepareStorage, ppm.content.SignedHeader().BlockHeight()) && has(storage.preprepareStorage[ppm.content.SignedHeader().BlockHeight()], ppm.content.SignedHeader().View())) ==>
+//@     | !result && storage.preprepareStorage[ppm.content.SignedHeader().BlockHeight()][ppm.content.SignedHeader().View()] == old(storage.preprepareStorage[ppm.content.SignedHeader().BlockHeight()][ppm.content.SignedHeader().View()])
+//@   ensures [stored-under-its-own-height-and-view] has(storage.preprepareStorage, ppm.content.SignedHeader().BlockHeight()) && has(storage.preprepareStorage[ppm.content.SignedHeader().BlockHeight()], ppm.content.SignedHeader().View())
+//@     | && (result ==> storage.preprepareStorage[ppm.content.SignedHeader().BlockHeight()][ppm.content.SignedHeader().View()] == ppm)
+
+//@ func (*InMemoryStorage).GetPreprepareMessage
+//@   props C10
+//@   requires storage.preprepareStorage != nil
+//@   ensures [the-stored-proposal-of-that-height-and-view] result1 == (has(storage.preprepareStorage, blockHeight) && has(storage.preprepareStorage[blockHeight], view))
+//@     | && (result1 ==> result0 == storage.preprepareStorage[blockHeight][view])
+
+//@ func (*InMemoryStorage).GetPreprepareFromView
+//@   props C10 C09
+//@   requires storage.preprepareStorage != nil
+//@   ensures [the-stored-proposal-of-that-height-and-view] result1 == (has(storage.preprepareStorage, blockHeight) && has(storage.preprepareStorage[blockHeight], view))
+//@     | && (result1 ==> result0 == storage.preprepareStorage[blockHeight][view])
+
+// ---- stores: a message goes under the key its own signed header names; nothing already stored is lost or replaced ----
+//@ pred CommitMapsOK(storage *InMemoryStorage) = (forall h int :: has(storage.commitStorage, h) ==> storage.commitStorage[h] != nil)
+//@   | && (forall h int, v int :: has(storage.commitStorage, h) && has(storage.commitStorage[h], v) ==> storage.commitStorage[h][v] != nil)
+//@   | && (forall h int, v int, x Str :: has(storage.commitStorage, h) && has(storage.commitStorage[h], v) && has(storage.commitStorage[h][v], x) ==> storage.commitStorage[h][v][x] != nil)
+//@ func (*InMemoryStorage).StoreCommit
+//@   props C10 C03
+//@   requires storage.commitStorage != nil && cm != nil && cm.content != nil
+//@   objinv [inner-maps-exist] CommitMapsOK(storage)
+//@   modifies M:Int:Int#3, M:Int:Int#2, M:Str:Int#1, M:Str:Int
+//@   ensures [stored-under-its-own-key] has(storage.commitStorage, cm.content.SignedHeader().BlockHeight()) && has(storage.commitStorage[cm.content.SignedHeader().BlockHeight()], cm.content.SignedHeader().View())
+//@     | && has(storage.commitStorage[cm.content.SignedHeader().BlockHeight()][cm.content.SignedHeader().View()], content(cm.content.SignedHeader().BlockHash()))
+//@     | && has(storage.commitStorage[cm.content.SignedHeader().BlockHeight()][cm.content.SignedHeader().View()][content(cm.content.SignedHeader().BlockHash())], content(cm.content.Sender().MemberId()))
+//@     | && (result ==> storage.commitStorage[cm.content.SignedHeader().BlockHeight()][cm.content.SignedHeader().View()][content(cm.content.SignedHeader().BlockHash())][content(cm.content.Sender().MemberId())] == cm)
+//@   ensures [nothing-stored-under-this-key-is-lost-or-replaced] forall qk Str :: old(has(storage.commitStorage, cm.content.SignedHeader().BlockHeight()) && has(storage.commitStorage[cm.content.SignedHeader().BlockHeight()], cm.content.SignedHeader().View())
+//@     |   && has(storage.commitStorage[cm.content.SignedHeader().BlockHeight()][cm.content.SignedHeader().View()], content(cm.content.SignedHeader().BlockHash()))
+//@     |   && has(storage.commitStorage[cm.content.SignedHeader().BlockHeight()][cm.content.SignedHeader().View()][content(cm.content.SignedHeader().BlockHash())], qk))
+//@     | ==> has(storage.commitStorage[cm.content.SignedHeader().BlockHeight()][cm.content.SignedHeader().View()][content(cm.content.SignedHeader().BlockHash())], qk)
+//@     |   && storage.commitStorage[cm.content.SignedHeader().BlockHeight()][cm.content.SignedHeader().View()][content(cm.content.SignedHeader().BlockHash())][qk] == old(storage.commitStorage[cm.content.SignedHeader().BlockHeight()][cm.content.SignedHeader().View()][content(cm.content.SignedHeader().BlockHash())][qk])
+
+//@ pred PrepareMapsOK(storage *InMemoryStorage) = (forall h int :: has(storage.prepareStorage, h) ==> storage.prepareStorage[h] != nil)
+//@   | && (forall h int, v int :: has(storage.prepareStorage, h) && has(storage.prepareStorage[h], v) ==> storage.prepareStorage[h][v] != nil)
+//@   | && (forall h int, v int, x Str :: has(storage.prepareStorage, h) && has(storage.prepareStorage[h], v) && has(storage.prepareStorage[h][v], x) ==> storage.prepareStorage[h][v][x] != nil)
+//@ func (*InMemoryStorage).StorePrepare
+//@   props C10 C09
+//@   requires storage.prepareStorage != nil && pp != nil && pp.content != nil
+//@   objinv [inner-maps-exist] PrepareMapsOK(storage)
+//@   modifies M:Int:Int#3, M:Int:Int#2, M:Str:Int#1, M:Str:Int
+//@   ensures [stored-under-its-own-key] has(storage.prepareStorage, pp.content.SignedHeader().BlockHeight()) && has(storage.prepareStorage[pp.content.SignedHeader().BlockHeight()], pp.content.SignedHeader().View())
+//@     | && has(storage.prepareStorage[pp.content.SignedHeader().BlockHeight()][pp.content.SignedHeader().View()], content(pp.content.SignedHeader().BlockHash()))
+//@     | && has(storage.prepareStorage[pp.content.SignedHeader().BlockHeight()][pp.content.SignedHeader().View()][content(pp.content.SignedHeader().BlockHash())], content(pp.content.Sender().MemberId()))
+//@     | && (result ==> storage.prepareStorage[pp.content.SignedHeader().BlockHeight()][pp.content.SignedHeader().View()][content(pp.content.SignedHeader().BlockHash())][content(pp.content.Sender().MemberId())] == pp)
+//@   ensures [nothing-stored-under-this-key-is-lost-or-replaced] forall qk Str :: old(has(storage.prepareStorage, pp.content.SignedHeader().BlockHeight()) && has(storage.prepareStorage[pp.content.SignedHeader().BlockHeight()], pp.content.SignedHeader().View())
+//@     |   && has(storage.prepareStorage[pp.content.SignedHeader().BlockHeight()][pp.content.SignedHeader().View()], content(pp.content.SignedHeader().BlockHash()))
+//@     |   && has(storage.prepareStorage[pp.content.SignedHeader().BlockHeight()][pp.content.SignedHeader().View()][content(pp.content.SignedHeader().BlockHash())], qk))
+//@     | ==> has(storage.prepareStorage[pp.content.SignedHeader().BlockHeight()][pp.content.SignedHeader().View()][content(pp.content.SignedHeader().BlockHash())], qk)
+//@     |   && storage.prepareStorage[pp.content.SignedHeader().BlockHeight()][pp.content.SignedHeader().View()][content(pp.content.SignedHeader().BlockHash())][qk] == old(storage.prepareStorage[pp.content.SignedHeader().BlockHeight()][pp.content.SignedHeader().View()][content(pp.content.SignedHeader().BlockHash())][qk])
